@@ -31,8 +31,17 @@ sequence of length <=5 (quick) / <=6 (thorough) over 8 operations {append 3 B, a
 bytearray model; after every operation ``len`` and ``peek(k)`` for k in {1, 2048, 10**6} are compared
 (peek must be a non-empty prefix of the model of length <= k) and at the end the buffer is drained.
 
-Sensitivity (quick tier, seed 1, scratch copies of tornado/iostream.py):
-  see the list at the end of this docstring (filled in after the mutant runs).
+Sensitivity (quick tier, seed 1, scratch copies of tornado/iostream.py; all caught unless noted):
+  M1 _StreamBuffer.advance: ``pos = 0`` dropped after ``del b[:pos]`` (bytearray path)   -> main C12.bytes_stuck_while_writable; sweep peek
+  M2 write(): ``_total_write_index += len(data)`` moved before the buffer-full check      -> C12.future_not_resolved_after_bytes_sent
+  M3 _handle_write: future loop ``index >`` -> ``index >=`` (last future never resolves)  -> C12.future_not_resolved_after_bytes_sent
+  M4 _handle_write: ``index > done + 1`` (resolves one byte early)                        -> C12.future_resolved_before_bytes_sent
+  M5 write(): ``.cast("B")`` dropped (array('I') views counted in items)                 -> C12.bytes_stuck_while_writable
+  M6 _StreamBuffer.peek: memoryview path ignores ``pos`` (``b[:size]``)                  -> C12.wire_not_concatenation; sweep drain
+  M8 _StreamBuffer.advance: large path ``pos += size`` -> ``pos = size``                 -> C12.wire_not_concatenation; sweep drain
+  M12 _StreamBuffer.advance: ``b_remain <= 0`` -> ``< 0`` (empty head buffer kept)       -> C12.bytes_stuck_while_writable; sweep peek
+  (M7 append: ``new_buf = is_memview or len(b) >= T`` -> ``len(b) >= T`` survives: memoryview entries are
+   always > T bytes long, so the mutant is equivalent.)
 """
 import array
 import itertools
@@ -45,7 +54,7 @@ from vlib import vtime
 from vlib.memstream import MemoryIOStream
 
 PROPERTY = "C12"
-READY = False
+READY = True
 RULE = (
     "main: Hypothesis op lists (<=40 ops, <=10 writes of 6 buffer kinds with sizes from {0,1,2047,2048,2049,"
     "4096,5000,random}, grants abs {0,1,7,2048,...} / relative to pending {-1,0,+1,half}, per-call chunk caps, "
